@@ -182,3 +182,67 @@ fn c08_parse_close_channel_end_reply_len7() {
 }
 
 // (the Message dispatcher with a symbolic kind byte: no verdict after 1800 s)
+
+// ---- strict parsing of arbitrary bytes as a frame that carries a value (Connect: value, then a varint) ------------------
+// accepted iff: length prefix == length, kind == Connect, 1 <= value length <= what is there, and behind the value exactly
+// one well-formed varint; never a panic (in particular not in BytesMut::split_off for an oversized claimed value length).
+macro_rules! parse_connect {
+    ($name:ident, $len:expr) => {
+        #[kani::proof]
+        #[kani::stub(bytes::BytesMut::reserve_inner, no_reserve_inner)]
+        #[kani::unwind(14)]
+        fn $name() {
+            let arr: [u8; $len] = kani::any();
+            let data: &[u8] = &arr;
+            let mut buf = BytesMut::with_capacity(32);
+            buf.extend_from_slice(data);
+            let r = super::Connect::deserialize_message(buf);
+            let header_ok = data[0] as usize == $len && data[1] == 0 && data[2] == 0 && data[3] == 0
+                && data[4] == MessageKind::Connect as u8;
+            let vlen = data[5] as usize + ((data[6] as usize) << 8) + ((data[7] as usize) << 16) + ((data[8] as usize) << 24);
+            let avail = $len - 9;
+            let mut ok = header_ok && vlen >= 1 && vlen <= avail;
+            let mut version: u32 = 0;
+            if ok {
+                // the rest behind the value must be exactly one varint
+                let rest = avail - vlen;
+                if rest == 0 {
+                    ok = false;
+                } else {
+                    let first = data[9 + vlen];
+                    if first <= 251 {
+                        ok = rest == 1;
+                        version = first as u32;
+                    } else {
+                        let k = (first - 251) as usize;
+                        ok = rest == 1 + k;
+                        if ok {
+                            let mut i = 0;
+                            while i < k {
+                                version |= (data[10 + vlen + i] as u32) << (8 * i);
+                                i += 1;
+                            }
+                        }
+                    }
+                }
+            }
+            match r {
+                Ok(m) => {
+                    assert!(ok);
+                    assert!(m.version == version);
+                    let p: &[u8] = m.value.as_ref();
+                    assert!(p.len() == vlen);
+                    assert!(p[0] == data[9]);
+                }
+                Err(_) => {
+                    assert!(!ok);
+                }
+            }
+        }
+    };
+}
+
+// obligation: C08.parse_connect_len11 | harness: c08_parse_connect_len11 | kind: bounded | bound: all byte strings of length 11 | tier: quick
+parse_connect!(c08_parse_connect_len11, 11);
+// obligation: C08.parse_connect_len12 | harness: c08_parse_connect_len12 | kind: bounded | bound: all byte strings of length 12 | tier: thorough
+parse_connect!(c08_parse_connect_len12, 12);
